@@ -394,7 +394,45 @@ def r8_frontend_keeps_positions(ctx, rule="C12.R8"):
     R.check(not twice, rule, "ws:one-entry-per-slot", "no way round the loop appends twice", "a slot can append two entries", where(twice[0]) if twice else None)
 
 
-RULES = [r1_sized_by_request, r2_slot_index, r3_range_and_zip, r4_counts, r5_allocator, r6_exact_id_number, r7_batch_key_is_whole_range, r8_frontend_keeps_positions]
+
+SHAPE_OPS = (r"Iterator::(filter|filter_map|skip|take|step_by|rev|flat_map|flatten|take_while|skip_while|map_while|dedup\w*|zip|chain|peekable|scan)$|"
+             r"Vec::<.*>::(retain|retain_mut|dedup\w*|sort\w*|reverse|truncate|remove|swap_remove|drain|pop|insert|split_off|swap)$|slice::<impl \[T\]>::(sort\w*|reverse|swap|rotate_\w+)$")
+
+
+def r9_slot_vector_travels_untouched(ctx):
+    """between process_batch_response (which builds the positional slot vector, placeholders included) and the front end
+    (R8) the vector is only handed on: the client's innermost service (async_client::rpc_service::RpcService::batch)
+    neither filters, reorders nor rebuilds it - a filter drops the placeholder slots (their id is null) and every later
+    answer moves to an earlier position"""
+    F, R = ctx.F, ctx.R
+    n = 0
+    bad = []
+    for b in F.find(r"async_client::rpc_service::RpcService as jsonrpsee_core::middleware::RpcServiceT>::batch"):
+        for x in F.nested(b):
+            n += 1
+            R.fn(x)
+            bad += [(x, c) for c in x.calls_to(SHAPE_OPS) if not c.exp]
+    if not n:
+        raise AnchorLost("async_client::rpc_service::RpcService::batch")
+    R.check(not bad, "C12.R9", "ws:service-hands-slots-on", "RpcService::batch hands the slot vector on untouched", "the async client's RpcService::batch reshapes the result vector (%s): placeholder slots of unanswered entries are dropped or moved, the list gets shorter and later answers shift" % sorted({short(c.name() or "") for _, c in bad}), where(bad[0][1]) if bad else None)
+
+
+
+def _borrowed(modname, fname):
+    def run(ctx):
+        import importlib
+        mod = importlib.import_module("jrsa.rules." + modname)
+        return getattr(mod, fname)(ctx)
+    run.__name__ = "%s_%s" % (modname, fname)
+    return run
+
+
+# "the i-th being the outcome (value or error object) of the i-th request; success/failure counts match": what a reply
+# element is taken for is decided by the Response parser's acceptance table (C15.R4/R5)
+BORROWED = [_borrowed("c15", "r4_duplicate_guards"), _borrowed("c15", "r5_acceptance_table")]
+
+
+RULES = [r1_sized_by_request, r2_slot_index, r3_range_and_zip, r4_counts, r5_allocator, r6_exact_id_number, r7_batch_key_is_whole_range, r8_frontend_keeps_positions, r9_slot_vector_travels_untouched] + BORROWED
 
 LEVEL_TEXT = (
     "Structural necessary conditions for positional batch results, decided from the type-checked program for both "
